@@ -29,6 +29,7 @@ type FuncContract struct {
 	Modifies    []Expr
 	ModifiesSrc []string
 	LoopInvs    map[int][]Clause
+	AtCall      map[string][]Clause // assertions checked in the caller just before each call of the named callee
 	PanicsNever bool
 	MayPanic    []Clause
 	Inline      bool
@@ -92,7 +93,7 @@ func newContracts() *Contracts {
 	return &Contracts{Funcs: map[string]*FuncContract{}, SpecFuncs: map[string]*SpecFunc{}, Lemmas: map[string]*Lemma{}, Ghosts: map[string]*GhostVar{}, FuncFields: map[string]string{}, OpaqueTys: map[string]bool{}, NonConsensusMapLoops: map[string]string{}}
 }
 
-var directiveKW = []string{"func", "invoke", "spec", "pred", "lemma", "axiom", "ghost", "requires", "ensures", "modifies", "loop", "panics_never", "may_panic", "inline", "trusted", "uses", "noreturn", "pure", "fresh_result", "funcfield", "sink", "opaque", "maploop"}
+var directiveKW = []string{"func", "invoke", "spec", "pred", "lemma", "axiom", "ghost", "requires", "ensures", "modifies", "loop", "panics_never", "may_panic", "inline", "trusted", "uses", "noreturn", "pure", "fresh_result", "funcfield", "sink", "opaque", "maploop", "at"}
 
 type directive struct {
 	kw    string
@@ -216,7 +217,7 @@ func (c *Contracts) loadFile(path, pkgPath string, isLib bool) error {
 			if _, dup := c.Funcs[key]; dup {
 				return fail(fmt.Errorf("duplicate contract for %s", key))
 			}
-			curF = &FuncContract{Key: key, PkgPath: pkgPath, ParamNames: params, LoopInvs: map[int][]Clause{}, Where: d.where, Invoke: d.kw == "invoke", IsLib: isLib, Trusted: isLib}
+			curF = &FuncContract{Key: key, PkgPath: pkgPath, ParamNames: params, LoopInvs: map[int][]Clause{}, AtCall: map[string][]Clause{}, Where: d.where, Invoke: d.kw == "invoke", IsLib: isLib, Trusted: isLib}
 			c.Funcs[key] = curF
 			curS, curL = nil, nil
 		case "spec", "pred":
@@ -389,6 +390,17 @@ func (c *Contracts) loadFile(path, pkgPath string, isLib bool) error {
 					return fail(err)
 				}
 				curF.LoopInvs[n] = append(curF.LoopInvs[n], Clause{label, e, body, d.where})
+			case "at":
+				f := strings.SplitN(d.rest, " ", 3)
+				if len(f) < 3 || f[1] != "assert" {
+					return fail(fmt.Errorf("expected 'at <callee> assert expr'"))
+				}
+				label, body := splitLabel(f[2])
+				e, err := parseExpr(body)
+				if err != nil {
+					return fail(err)
+				}
+				curF.AtCall[f[0]] = append(curF.AtCall[f[0]], Clause{label, e, body, d.where})
 			case "panics_never":
 				curF.PanicsNever = true
 			case "may_panic":
